@@ -2,7 +2,7 @@ import RV.C19.LemmasOps
 import RV.C19.LemmasTotal
 import RV.C19.LemmasG
 import RV.C19.LemmasN3
-import RV.C19.LemmasSep3
+import RV.C19.LemmasSep4
 /-
   C19 — "An RDF Collection behaves like the Python list it represents."
 
@@ -646,5 +646,56 @@ example : iter (step 100 exShared (.setItem 2 14)).1.g 200 = .ok [20, 11, 14] :=
 example : iter (step 100 exShared (.setItem 0 14)).1.g 200 = .ok [20, 11, 12] := rfl
 example : iter (step 100 exShared (.delItem 1)).1.g 200 = .ok [20] := rfl
 example : iter (step 100 exShared (.delItem 0)).1.g 200 = .ok [20] := rfl
+
+/-! #### a second collection that shares nothing keeps its list -/
+
+/-- `h2` names another collection of the same graph whose cells are all foreign to `h` (its rdf:rest walk
+    stays inside `F` until rdf:nil): whatever is done through `h`, `Graph.items(h2)` — hence `list`, `len`,
+    membership, `n3()` of the other collection — yields exactly what it yielded before. -/
+def Statement_disjoint_second_keeps_list : Prop :=
+  ∀ (F : Term → Bool) (s : St) (h h2 : Term) (xs : List Term) (op : Op),
+    F h = false → F NIL = false → (∀ n, s.fresh ≤ n → F n = false) →
+    WF ⟨own F s.g, s.fresh⟩ h → asList (own F s.g) h = .ok xs →
+    F h2 = true → (∀ c o, F c = true → (c, REST, o) ∈ s.g → F o = true ∨ o = NIL) →
+    items (step h s op).1.g h2 = items s.g h2
+
+theorem disjoint_second_keeps_list_partial :
+    ∀ (F : Term → Bool) (s : St) (h h2 : Term) (xs : List Term) (op : Op),
+      F h = false → F NIL = false → (∀ n, s.fresh ≤ n → F n = false) →
+      WF ⟨own F s.g, s.fresh⟩ h → asList (own F s.g) h = .ok xs → isSetAtLen xs.length op = false →
+      F h2 = true → (∀ c o, F c = true → (c, REST, o) ∈ s.g → F o = true ∨ o = NIL) →
+      items (step h s op).1.g h2 = items s.g h2 := by
+  intro F s h h2 xs op hh hn hfr wf ha hok h2F hcl
+  obtain ⟨_, e2, e3, e4⟩ := coll_separation F s h op hh hn hfr wf
+  obtain ⟨_, ⟨ps', inv'⟩, _⟩ := coll_refines_partial ⟨own F s.g, s.fresh⟩ h xs op wf ha hok
+  obtain ⟨ps, inv⟩ := wf
+  have hst : (step h ⟨own F s.g, s.fresh⟩ op).1 = ⟨own F (step h s op).1.g, (step h s op).1.fresh⟩ := by
+    rw [e2, e3]
+  rw [hst] at inv'
+  exact items_second e4 (fun p hp => ⟨value_nil_of_own_inv hn inv hp, value_nil_of_own_inv hn inv' hp⟩) h2F hcl
+
+/-- `c1 = [10]`, and a disjoint `c2 = [20]` on the cell 200 -/
+def exDisj : St := ⟨exG1 ++ [(200, FIRST, 20), (200, REST, NIL)], 1000⟩
+
+/-- with `c[len(c)] = x` (C19-K1) the statement is false: `c1[1] = 11` makes the unrelated `c2` read `[20, 11]` -/
+theorem disjoint_second_keeps_list_witness : ¬ Statement_disjoint_second_keeps_list := by
+  intro H
+  have := H exF exDisj 100 200 [10] (.setItem 1 11) rfl rfl
+    (fun n hn => by
+      have hn' : 1000 ≤ n := hn
+      show (n == 200) = false
+      exact beq_eq_false_iff_ne.mpr (fun e => by rw [e] at hn'; exact absurd hn' (by decide)))
+    ⟨_, exG1_inv⟩ rfl rfl
+    (by
+      intro c o hc hm
+      have hc' : c = 200 := by simpa [exF] using hc
+      subst hc'
+      right
+      simp [exDisj, exG1, FIRST, REST, NIL] at hm
+      simpa [NIL] using hm)
+  have h1 : items (step 100 exDisj (.setItem 1 11)).1.g 200 = ([20, 11], none) := rfl
+  have h2 : items exDisj.g 200 = ([20], none) := rfl
+  rw [h1, h2] at this
+  simp at this
 
 end RV.C19
